@@ -10,7 +10,8 @@
 //   address/port tuple mirrors the request's (C03); a reply exists only for frames in scope and
 //   comes from a handled address (C02); the connection table holds exactly the flows that sent a
 //   data segment acknowledging cookie+1 (C09, cookies learned from the responder's SYN-ACKs);
-//   the event log of every frame is balanced, nested, faithful (C20's judge, all three loggers).
+//   the event log of every frame is balanced, nested, faithful (C20's judge, all three loggers);
+//   every application reply obeys its protocol's reply format and echoes what it must (C13-C18).
 // fz_stream: bytes -> (protocol selector, stream, cut positions); C11's relation between the
 //   unsplit delivery, the finest delivery and the given segmentation.
 //
@@ -186,6 +187,93 @@ fn scope_check(cfg: &Cfg, f: &[u8], r: &[u8]) -> Result<(), String> {
     Ok(())
 }
 
+/// Reply invariants of the application protocols (C13-C18): whatever the request was, a reply
+/// that is recognisably protocol X's obeys X's reply format; where the request is in the same
+/// datagram / segment, the echoed fields are compared too. Err = (property, message).
+fn app_invariants(req: &[u8], rep: &[u8], tcp: bool, src: &IpAddr, sport: u16, dst: &IpAddr) -> Result<(), (String, String)> {
+    use super::dec_app::*;
+    let tail = || format!("(request payload {} reply payload {})", hex(&req[..req.len().min(100)]), hex(&rep[..rep.len().min(100)]));
+    match classify_reply(rep, tcp) {
+        Responder::Http => {
+            let r = parse_http_response(rep).map_err(|e| ("C13".to_string(), format!("HTTP response does not parse: {} {}", e, tail())))?;
+            if !r.status_line.starts_with("HTTP/1.1 401") {
+                return Err(("C13".into(), format!("status line {:?} {}", r.status_line, tail())));
+            }
+            if !r.header("WWW-Authenticate").map(|v| !v.is_empty()).unwrap_or(false) {
+                return Err(("C13".into(), format!("no WWW-Authenticate challenge {}", tail())));
+            }
+            let cl: usize = r.header("Content-Length").and_then(|v| v.parse().ok()).unwrap_or(usize::MAX);
+            if cl != r.body.len() {
+                return Err(("C13".into(), format!("Content-Length {} but {} body bytes {}", cl, r.body.len(), tail())));
+            }
+        }
+        Responder::Ssh => {
+            if rep != b"SSH-2.0-1\r\n" {
+                return Err(("C18".into(), format!("SSH answer is not exactly the banner {}", tail())));
+            }
+        }
+        Responder::Ghost => {
+            super::props::c18::ghost_reply_ok(rep).map_err(|f| ("C18".to_string(), format!("{} {}", f.msg, tail())))?;
+        }
+        Responder::Stun => {
+            let m = parse_stun(rep).map_err(|e| ("C15".to_string(), format!("STUN response does not parse: {} {}", e, tail())))?;
+            if req.len() >= 20 && m.tid[..] != req[4..20] {
+                return Err(("C15".into(), format!("transaction id not echoed {}", tail())));
+            }
+            let ma: Vec<&(u16, Vec<u8>)> = m.attrs.iter().filter(|(t, _)| *t == 1).collect();
+            if ma.len() != 1 {
+                return Err(("C15".into(), format!("{} MAPPED-ADDRESS attributes {}", ma.len(), tail())));
+            }
+            let (fam, port, addr) = parse_mapped_address(&ma[0].1).map_err(|e| ("C15".to_string(), format!("{} {}", e, tail())))?;
+            if fam != if src.is_ipv4() { 1 } else { 2 } || port != sport || addr != *src {
+                return Err(("C15".into(), format!("MAPPED-ADDRESS {}/{}:{} is not the request's source {}:{} {}", fam, addr, port, src, sport, tail())));
+            }
+        }
+        Responder::Dns => {
+            if tcp || req.len() < 12 {
+                return Ok(());
+            }
+            if rep[0..2] != req[0..2] {
+                return Err(("C14".into(), format!("DNS id not echoed {}", tail())));
+            }
+            if let (Ok(m), IpAddr::V4(d4)) = (parse_dns(rep), dst) {
+                if m.answers.len() != m.questions.len() {
+                    return Err(("C14".into(), format!("{} answers for {} questions {}", m.answers.len(), m.questions.len(), tail())));
+                }
+                for rr in &m.answers {
+                    if rr.typ != 1 || rr.class != 1 || rr.rdata != d4.octets() {
+                        return Err(("C14".into(), format!("answer record type {} class {} rdata {:?} (queried address {}) {}", rr.typ, rr.class, rr.rdata, d4, tail())));
+                    }
+                }
+            }
+        }
+        Responder::Rpc => {
+            let body = if rpc_record_marked(rep) { &rep[4..] } else { rep };
+            if body.len() % 4 != 0 {
+                return Err(("C16".into(), format!("RPC reply length {} is not a multiple of 4 {}", body.len(), tail())));
+            }
+            if !tcp {
+                let rx = if rpc_record_marked(rep) { 4 } else { 0 };
+                if req.len() >= rx + 4 && body.len() >= 4 && body[0..4] != req[rx..rx + 4] {
+                    return Err(("C16".into(), format!("XID not echoed {}", tail())));
+                }
+            }
+        }
+        Responder::Smb => {
+            let nb = (((rep[1] & 1) as usize) << 16) | be16(rep, 2) as usize;
+            if nb != rep.len() - 4 {
+                return Err(("C17".into(), format!("NetBIOS length {} but {} bytes follow {}", nb, rep.len() - 4, tail())));
+            }
+            let ok = if &rep[4..8] == b"\xffSMB" { rep.len() >= 14 && rep[13] & 0x80 != 0 } else { rep.len() >= 24 && le32(rep, 4 + 16) & 1 != 0 };
+            if !ok {
+                return Err(("C17".into(), format!("SMB answer without the reply flag {}", tail())));
+            }
+        }
+        Responder::Unknown => {}
+    }
+    Ok(())
+}
+
 fn violation(prop: &str, msg: String) -> ! {
     // the harness's panic hook is silent: print first
     eprintln!("VERIF-VIOLATION {}: {}", prop, msg);
@@ -350,6 +438,22 @@ pub fn frames_checked(data: &[u8]) -> Result<u64, (String, String)> {
                 }
                 if let Err(f) = mirror_check(&cfg, &frame, &d) {
                     return Err(("C03".into(), format!("{} (request {} reply {})", f.msg, hex(&frame[..frame.len().min(120)]), hex(&r[..r.len().min(120)]))));
+                }
+                // application reply invariants (C13-C18)
+                if let (Some(app), Some(rv)) = (d.app(), view_request(&frame)) {
+                    if let Some(ip) = &rv.ip {
+                        let (tcp, reqp, sport): (bool, &[u8], u16) = if ip.proto == P_TCP && ip.l4.len() >= 20 {
+                            let doff = ((ip.l4[12] >> 4) as usize * 4).max(20).min(ip.l4.len());
+                            (true, &ip.l4[doff..], be16(&ip.l4, 0))
+                        } else if ip.proto == P_UDP && ip.l4.len() >= 8 {
+                            (false, &ip.l4[8..], be16(&ip.l4, 0))
+                        } else {
+                            (false, &[][..], 0)
+                        };
+                        if !app.is_empty() && (ip.proto == P_TCP || ip.proto == P_UDP) {
+                            app_invariants(reqp, app, tcp, &ip.src, sport, &ip.dst)?;
+                        }
+                    }
                 }
             }
         }
